@@ -70,6 +70,7 @@ def data_kinds(rng, N, atype):
         y[0] = y[0].real
     out["complex"] = y
     out["real"] = rng.normal(size=N).astype(complex)
+    out["real-float-storage"] = rng.normal(size=N)          # values handed over as a float array (e.g. a measured real signal)
     if atype == "complete":
         # f(-t) = conj f(t) about index N//2 where possible
         h = rng.normal(size=N) + 1j * rng.normal(size=N)
@@ -169,7 +170,7 @@ def run_case(case, ctx):
     if case["cls"] == "large-N":
         kinds_sel = ("complex",)
     else:
-        kinds_sel = ("complex", "real", "hermitian", "delta")
+        kinds_sel = ("complex", "real", "real-float-storage", "hermitian", "delta")
     for atype in ("complete", "upper-half"):
         dt = r3(rng.uniform(0.05, 10.0))
         start = -(N // 2) * dt if atype == "complete" else 0.0
